@@ -425,6 +425,43 @@ Proof.
   assert (2 ^ 53 < 2 ^ 63) by (apply N.pow_lt_mono_r; lia). lia.
 Qed.
 
+(* ---- range and rerank (commits 9313bfc, 13d1954) *)
+
+Lemma nz_app l r : r <> 0 -> prod (nz (l ++ [r])) = prod (nz l) * r.
+Proof.
+  intros Hr. induction l as [|d t IH]; cbn [app nz filter].
+  - destruct (N.eqb_spec r 0); [contradiction|]. cbn [negb prod fold_right]. lia.
+  - fold (nz (t ++ [r])) (nz t). destruct (negb (d =? 0)); [|exact IH].
+    cbn [prod fold_right]. fold (prod (nz (t ++ [r]))) (prod (nz t)). rewrite IH. lia.
+Qed.
+
+(** the shape that `range` builds from accepted dimensions is valid: the product of its non-zero
+    dimensions fits in a usize (the result's shape is dims ++ [rank]) *)
+Theorem range_shape_valid dims L n : L < 2 ^ 53 -> N.of_nat (length dims) + 1 < 2 ^ 50 ->
+  range_len dims L = Accept n -> prod (nz (dims ++ [N.of_nat (length dims)])) <= usize_max.
+Proof.
+  intros HL Hlen H. destruct dims as [|d t]; [cbn; unfold usize_max; lia|].
+  unfold range_len in H. set (ds := d :: t) in *.
+  destruct (validate_size 8 (ds ++ [N.of_nat (length ds)]) L) as [m|] eqn:E; [|discriminate].
+  apply (size_guard_sound 8 _ L m HL) in E; [tauto|]. rewrite app_length. cbn [length]. lia.
+Qed.
+
+Theorem range_refuted_pre : exists dims L, L < 2 ^ 53 /\ range_len_pre dims L = Accept 0 /\ usize_max < prod (nz dims).
+Proof. exists [10000000000; 40000000000; 0], (2 ^ 32). repeat split; reflexivity. Qed.
+
+Theorem range_witness_refused : range_len [10000000000; 40000000000; 0] (2 ^ 32) = Reject.
+Proof. reflexivity. Qed.
+
+(** rerank prepends fewer than 99 axes, whatever rank is asked for *)
+Theorem rerank_prepends_bounded rank len k : rerank_prepends rank len = Some k -> k <= MAX_DIMS.
+Proof.
+  unfold rerank_prepends, MAX_DIMS. destruct (N.leb_spec len rank); [|intros [= <-]; lia].
+  destruct (N.leb_spec 99 rank); [discriminate|]. intros [= <-]. lia.
+Qed.
+
+Theorem rerank_refuted_pre : exists rank len k, rerank_prepends_pre rank len = Some k /\ 10 ^ 18 <= k.
+Proof. exists (10 ^ 18), 1, (10 ^ 18). split; [reflexivity|lia]. Qed.
+
 End Rnd.
 
 (* ------------------------------------------------------------------ call depth *)
